@@ -20,7 +20,12 @@ EXTENDS Integers, Sequences, TLC, Json
 CONSTANT Scenarios
 VARIABLE sc
 
-C(a, b, op, c, d, q, bare) == [a |-> a, b |-> b, op |-> op, c |-> c, d |-> d, q |-> q, bare |-> bare]
+C(a, b, op, c, d, q, bare) == [a |-> a, b |-> b, op |-> op, c |-> c, d |-> d, q |-> q, bare |-> bare, lw |-> "", rw |-> ""]
+\* a TEXT scenario: the left-hand side is a symbol whose value is the word lw, the right-hand side the word rw (quoted or not);
+\* neither is a number, so the two texts are compared - equal or not equal, nothing else is asked here.  How many blanks or
+\* tabs stand around the operator carries no meaning in either kind of scenario (the harness varies them).
+T(lw, op, rw, q) == [a |-> 0, b |-> 1, op |-> op, c |-> 0, d |-> 1, q |-> q, bare |-> FALSE, lw |-> lw, rw |-> rw]
+Text(s) == s.lw # ""
 Ops == {"==", "!=", "<", "<=", ">", ">="}
 
 Trunc(n, d) == IF n < 0 THEN -((-n) \div d) ELSE n \div d        \* d > 0
@@ -28,16 +33,18 @@ Cmp(op, x, y) == CASE op = "==" -> x = y [] op = "!=" -> x # y [] op = "<" -> x 
                    [] op = ">" -> x > y [] OTHER -> x >= y
 Lhs(s) == Trunc(s.a, s.b)
 Rhs(s) == Trunc(s.c, s.d)
-Holds(s) == IF s.bare THEN Lhs(s) # 0 ELSE Cmp(s.op, Lhs(s), Rhs(s))
+Holds(s) == IF Text(s) THEN (IF s.op = "==" THEN s.lw = s.rw ELSE s.lw # s.rw)
+            ELSE IF s.bare THEN Lhs(s) # 0 ELSE Cmp(s.op, Lhs(s), Rhs(s))
 Sign(x) == IF x < 0 THEN -1 ELSE IF x = 0 THEN 0 ELSE 1
-HoldsBySign(s) == IF s.bare THEN Sign(Lhs(s)) # 0 ELSE Cmp(s.op, Sign(Lhs(s) - Rhs(s)), 0)
+HoldsBySign(s) == IF Text(s) THEN Holds(s) ELSE IF s.bare THEN Sign(Lhs(s)) # 0 ELSE Cmp(s.op, Sign(Lhs(s) - Rhs(s)), 0)
 
 Init == sc \in Scenarios
 Spec == Init /\ [][FALSE]_sc
 
 SignFormAgrees == Holds(sc) = HoldsBySign(sc)
 OperatorsPartition ==
-    ~sc.bare =>
+    /\ Text(sc) => Holds([sc EXCEPT !.op = "=="]) = ~Holds([sc EXCEPT !.op = "!="])
+    /\ (~sc.bare /\ ~Text(sc)) =>
         /\ Holds([sc EXCEPT !.op = "=="]) = ~Holds([sc EXCEPT !.op = "!="])
         /\ Holds([sc EXCEPT !.op = "<"])  = ~Holds([sc EXCEPT !.op = ">="])
         /\ Holds([sc EXCEPT !.op = ">"])  = ~Holds([sc EXCEPT !.op = "<="])
